@@ -369,3 +369,45 @@ fn diag_sys<const N: usize, const K: usize>() {
 }
 harness!(name=c01_diag_2x3, prop=C01, mode=R, kind=normal, tier=thorough, unwind=20, { diag_sys::<2, 3>() });
 harness!(name=c01_diag_3x2, prop=C01, mode=R, kind=normal, tier=thorough, unwind=20, { diag_sys::<3, 2>() });
+
+// @bound c01_systwin_: order N, K right-hand sides (instance), A symmetric or general (instance), every bit pattern (floating-point arithmetic opaque, comparisons exact: U)
+// @claim c01_systwin_: solve_sys(A, B) is, column by column and in the row-major N x K layout, bit-identical to solve(A, b_j) - whichever factorisation route the routing predicate selects, both take it (U). With c01_wu_solve_* / the factorisation obligations this carries A X = B over to several right-hand sides on the symmetric routes as well
+// @modes c01_systwin_: U
+// @cap c01_systwin_: 100
+fn systwin<const N: usize, const K: usize>(symmetric: bool) {
+    let mut a = inp::vec(0, N * N);
+    if symmetric {
+        let mut i = 0;
+        while i < N {
+            let mut j = 0;
+            while j < i {
+                a[i * N + j] = a[j * N + i];
+                j += 1;
+            }
+            i += 1;
+        }
+    }
+    let b = inp::vec(100, N * K);
+    let x = solve_sys(&a, &b);
+    vassert!(x.len() == N * K, "solve_sys returned {} entries for {} x {}", x.len(), N, K);
+    let mut j = 0;
+    while j < K {
+        let mut bj = vec![0.0; N];
+        let mut i = 0;
+        while i < N {
+            bj[i] = b[i * K + j];
+            i += 1;
+        }
+        let xj = solve(&a, &bj);
+        vassert!(xj.len() == N, "solve returned {} entries", xj.len());
+        let mut i = 0;
+        while i < N {
+            crate::vbits!(x[i * K + j], xj[i], "solve_sys entry ({},{}) differs from solve on column {}", i, j, j);
+            i += 1;
+        }
+        j += 1;
+    }
+}
+harness!(name=c01_systwin_sym_2_3, prop=C01, mode=U, kind=normal, tier=quick, unwind=20, { systwin::<2, 3>(true) });
+harness!(name=c01_systwin_sym_2_1, prop=C01, mode=U, kind=normal, tier=quick, unwind=20, { systwin::<2, 1>(true) });
+harness!(name=c01_systwin_gen_2_3, prop=C01, mode=U, kind=normal, tier=thorough, unwind=20, { systwin::<2, 3>(false) });
